@@ -474,8 +474,8 @@ def check_builder(case):
 
 
 SUBS = [
-    Sub("pythtb", ptb_case(), check_pythtb, quick=320, thorough=6400, budget_quick=150.0, budget_thorough=900.0),
-    Sub("tbmodels", tbm_case(), check_tbmodels, quick=200, thorough=4800, budget_quick=150.0, budget_thorough=900.0),
-    Sub("haldane", haldane_st, check_haldane, quick=48, thorough=1600, budget_quick=150.0, budget_thorough=900.0),
-    Sub("builders", builder_case(), check_builder, quick=96, thorough=1600, budget_quick=150.0, budget_thorough=900.0),
+    Sub("pythtb", ptb_case(), check_pythtb, quick=320, thorough=12800, budget_quick=150.0, budget_thorough=900.0),
+    Sub("tbmodels", tbm_case(), check_tbmodels, quick=200, thorough=8000, budget_quick=150.0, budget_thorough=900.0),
+    Sub("haldane", haldane_st, check_haldane, quick=48, thorough=3200, budget_quick=150.0, budget_thorough=900.0),
+    Sub("builders", builder_case(), check_builder, quick=96, thorough=3200, budget_quick=150.0, budget_thorough=900.0),
 ]
